@@ -567,6 +567,12 @@ func (wd *world) view(t0, t1 time.Time) (view, error) {
 		}
 	}
 	for id, e := range snap.E {
+		if _, confirmed := snap.U[id]; confirmed {
+			// only while the wallet lags behind a reorg: the block that created
+			// the output was reverted (its transaction is back in the pool), the
+			// store still lists it. It is one output, counted with the confirmed ones.
+			continue
+		}
 		switch wd.lockState(id, t0, t1) {
 		case lockNo:
 			v.Efree[id] = e
